@@ -72,40 +72,41 @@ package golang
 //@ func (r *Resolver) getTypeName(g *Scope, t *parser.Type) (name string, err error)
 //@   trusted
 
-//@ func (r *Resolver) onBool(g *Scope, name string, t *parser.Type, v *parser.ConstValue) (string, error)
-//@   requires t != nil && cvOK(v) && resOK(r, g, v)
+//@ func (r *Resolver) onBool(g, vs *Scope, name string, t *parser.Type, v *parser.ConstValue) (string, error)
+//@   requires t != nil && cvOK(v) && g != nil && resOK(r, vs, v)
 //@   ensures result1 == nil ==> v.Type == parser.ConstType_ConstInt || v.Type == parser.ConstType_ConstDouble || v.Type == parser.ConstType_ConstIdentifier
 
-//@ func (r *Resolver) onInt(g *Scope, name string, t *parser.Type, v *parser.ConstValue) (string, error)
-//@   requires t != nil && cvOK(v) && resOK(r, g, v)
+//@ func (r *Resolver) onInt(g, vs *Scope, name string, t *parser.Type, v *parser.ConstValue) (string, error)
+//@   requires t != nil && cvOK(v) && g != nil && resOK(r, vs, v)
 //@   ensures result1 == nil ==> v.Type == parser.ConstType_ConstInt || v.Type == parser.ConstType_ConstIdentifier
 
-//@ func (r *Resolver) onDouble(g *Scope, name string, t *parser.Type, v *parser.ConstValue) (string, error)
-//@   requires t != nil && cvOK(v) && resOK(r, g, v)
+//@ func (r *Resolver) onDouble(g, vs *Scope, name string, t *parser.Type, v *parser.ConstValue) (string, error)
+//@   requires t != nil && cvOK(v) && g != nil && resOK(r, vs, v)
 //@   ensures result1 == nil ==> v.Type == parser.ConstType_ConstInt || v.Type == parser.ConstType_ConstDouble || v.Type == parser.ConstType_ConstIdentifier
 
-//@ func (r *Resolver) onStrBin(g *Scope, name string, t *parser.Type, v *parser.ConstValue) (res string, err error)
-//@   requires t != nil && cvOK(v) && resOK(r, g, v)
+//@ func (r *Resolver) onStrBin(g, vs *Scope, name string, t *parser.Type, v *parser.ConstValue) (res string, err error)
+//@   requires t != nil && cvOK(v) && g != nil && resOK(r, vs, v)
 //@   ensures err == nil ==> v.Type == parser.ConstType_ConstLiteral || (v.Type == parser.ConstType_ConstIdentifier && cvId(v) != "true" && cvId(v) != "false")
 
-//@ func (r *Resolver) onEnum(g *Scope, name string, t *parser.Type, v *parser.ConstValue) (string, error)
-//@   requires t != nil && cvOK(v) && resOK(r, g, v)
+//@ func (r *Resolver) onEnum(g, vs *Scope, name string, t *parser.Type, v *parser.ConstValue) (string, error)
+//@   requires t != nil && cvOK(v) && g != nil && resOK(r, vs, v)
 //@   ensures result1 == nil ==> v.Type == parser.ConstType_ConstInt || v.Type == parser.ConstType_ConstIdentifier
 
 // Containers and struct literals: not under contract yet (loops over nested values, typedef dereference through scopes):
 // assumed to return a string or an error and to change nothing the resolver reads.
-//@ func (r *Resolver) onSetOrList(g *Scope, name string, t *parser.Type, v *parser.ConstValue) (string, error)
+//@ func (r *Resolver) onSetOrList(g, vs *Scope, name string, t *parser.Type, v *parser.ConstValue) (string, error)
 //@   trusted
-//@ func (r *Resolver) onMap(g *Scope, name string, t *parser.Type, v *parser.ConstValue) (string, error)
+//@ func (r *Resolver) onMap(g, vs *Scope, name string, t *parser.Type, v *parser.ConstValue) (string, error)
 //@   trusted
-//@ func (r *Resolver) onStructLike(g *Scope, name string, t *parser.Type, v *parser.ConstValue) (string, error)
+//@ func (r *Resolver) onStructLike(g, vs *Scope, name string, t *parser.Type, v *parser.ConstValue) (string, error)
 //@   trusted
 
+// (g: scope the type t belongs to; vs: scope of the file the value v is written in -- identifiers in v were bound there.)
 // resolveConst: a scalar target type accepts only the value kinds it can hold; a category that is not a data type is an
 // error.
 //@ pure func isIntCat(c parser.Category) bool { return c == parser.Category_Byte || c == parser.Category_I16 || c == parser.Category_I32 || c == parser.Category_I64 }
-//@ func (r *Resolver) resolveConst(g *Scope, name string, t *parser.Type, v *parser.ConstValue) (string, error)
-//@   requires t != nil && cvOK(v) && resOK(r, g, v)
+//@ func (r *Resolver) resolveConst(g, vs *Scope, name string, t *parser.Type, v *parser.ConstValue) (string, error)
+//@   requires t != nil && cvOK(v) && g != nil && resOK(r, vs, v)
 //@   ensures result1 == nil && t.Category == parser.Category_Bool ==> v.Type == parser.ConstType_ConstInt || v.Type == parser.ConstType_ConstDouble || v.Type == parser.ConstType_ConstIdentifier
 //@   ensures result1 == nil && isIntCat(t.Category) ==> v.Type == parser.ConstType_ConstInt || v.Type == parser.ConstType_ConstIdentifier
 //@   ensures result1 == nil && t.Category == parser.Category_Double ==> v.Type == parser.ConstType_ConstInt || v.Type == parser.ConstType_ConstDouble || v.Type == parser.ConstType_ConstIdentifier
